@@ -234,6 +234,8 @@ fn removetxn_case<K: Kern<D>, const D: usize>(cx: &mut Ctx, script: &Value, base
         }
     }
     let before = cx.tr.project(&dt);
+    let gen0 = dt.tds().generation();
+    let hull = delaunay::geometry::algorithms::convex_hull::ConvexHull::from_triangulation(dt.as_triangulation()).ok();
     fp::start_log();
     let r = cx.tr.guard("remove_vertex (transaction script)", || match dt.remove_vertex(&tv) {
         Ok(_) => "Ok".to_string(),
@@ -260,6 +262,8 @@ fn removetxn_case<K: Kern<D>, const D: usize>(cx: &mut Ctx, script: &Value, base
             let has = find_vertex(&dt, target_uuid).is_some();
             cx.tr.emit("RTxn", 0, json!({"D": D, "kernel": K::NAME, "script": script, "star": star}),
                 json!({"kind": kind, "sites": sites, "fired": fired.iter().take(4).collect::<Vec<_>>(), "has": has, "changed": changed,
+                       "gen_changed": dt.tds().generation() != gen0,
+                       "hull_stale": hull.as_ref().is_none_or(|hl| !hl.is_valid_for_triangulation(dt.as_triangulation())),
                        "repair_fired": fired.iter().any(|s| s.starts_with("repair."))}), None, false);
         }
         Guarded::Panicked(msg) => {
